@@ -57,6 +57,8 @@ def shards(tier, seed):
     per = 600 if tier == "quick" else 6000
     for k in range(m):
         out.append({"kind": "random", "n": per, "part": k})
+    if tier == "thorough":
+        out.append({"kind": "under_tests"})
     return out
 
 
@@ -211,6 +213,17 @@ def run_shard(spec):
     from lqv.mon.contracts import Monitor, ContractRefuted
     import liquer.parser as P
 
+    if spec.get("kind") == "under_tests":
+        from lqv import undertests
+
+        r = undertests.run("C03", spec["scratch"])
+        if r is None:
+            return {"evaluations": 0, "inconclusive": ["test-suite run with contracts did not finish"]}
+        v = [{"sig": "C03|under the repository's tests|" + x["contract"],
+              "what": "contract refuted while the repository's own tests ran: %r" % (x["witness"],),
+              "witness": {"kind": "replay", "text": (x["witness"] or {}).get("token", (x["witness"] or {}).get("string", ""))}} for x in r["records"][:5]]
+        n = r["counts"].get("encode_token.roundtrip", 0)
+        return {"evaluations": n, "violations": v, "counters": {"contract_evals_under_repo_tests": n}}
     mon = Monitor("raise")
     install_contracts(mon)
     violations = {}
